@@ -19,10 +19,11 @@ import os
 import c08_run
 import lsmlib
 import vlib
+import c08_fault
 
 META = {
     "category": "proof",
-    "text": "Coq theorems (Refs/Props_C08.v, 12 theorems, closed under the global context) over an executable state-machine model of lsmtk's file life cycle (reference_counter.rs; explicit_ref/unref, release_sst, install_version, compaction_finish pin/link/apply/install/unpin, _ingest, from_manifest and cleanup_orphans of tree/mod.rs; open/recover/_memtable_thread of kvs/mod.rs; verify/process_one/possibly_complete_processing/verify_one's lists/added_after of verifier.rs; mani at the level of edits and fragments). For EVERY interleaving of the store's threads (opening thread, memtable thread, any number of compaction threads, any number of readers) one system call at a time, readers taking and releasing snapshots, compactions with any names (re-created setsums included), manifest roll-overs, the process dying between any two steps and reopening, and the verifier stepping, dying and restarting anywhere: every sst named by the committed manifest, the current version or a held snapshot is in sst/ (C08_needed_not_removed); reference counts are exact and a counted sst is in place; a log is in the trash only if it is empty or its sst was committed; the orphan scan never names a listed sst whatever fragments the verifier has removed, and open() finds every listed sst; the verifier unlinks only trash entries that the fragment named in its own manifest recorded, and no verifier activity touches sst/, the root's logs, the live manifest or the highest fragment. release_sst is also modelled at the grain of dec_and's decision and its callback (Refs/ModelLock.v: IDecToZero / IRenameToTrash with any thread in between): with the table lock held across the callback every such run ends in a state of the atomic model (C08_release_callback_under_table_lock_refines_atomic_release), so nothing needed is removed; with the callback run after the lock is given up the property is refuted (C08_needed_not_removed_refuted_without_lock_across_callback). By incarnation the verifier property is refuted (known class K-verifier-by-name) and proved outside the class. The model is tied to the code by lock-step replay of real single-stepped histories on the extracted model, comparing directory contents, reference counts, manifest state, fragments and the verifier's manifest after every step; verifier passes are killed before each unlink (strace), a reader's release is placed inside a compaction (hook), a compaction's pin of a re-created sst is placed inside the release callback of the same sst (sst point hook; the pin must wait for the rename, as ModelLock.fstep says), store processes are killed inside their renames, physical entries are compared across reopens.",
+    "text": "Coq theorems (Refs/Props_C08.v, 16 theorems, closed under the global context; the last four are about I/O errors on the ingest path - Refs/IngestFault.v models LsmTree::_ingest, Manifest::_apply and rollover one fallible system call at a time: for any sequence of ingests each failing at any call every listed sst is in sst/ and nothing is removed, and the clean-up variant is refuted; tied by strace recordings of bare-tree ingests compared with the model call by call and EIO injected at every call in turn) over an executable state-machine model of lsmtk's file life cycle (reference_counter.rs; explicit_ref/unref, release_sst, install_version, compaction_finish pin/link/apply/install/unpin, _ingest, from_manifest and cleanup_orphans of tree/mod.rs; open/recover/_memtable_thread of kvs/mod.rs; verify/process_one/possibly_complete_processing/verify_one's lists/added_after of verifier.rs; mani at the level of edits and fragments). For EVERY interleaving of the store's threads (opening thread, memtable thread, any number of compaction threads, any number of readers) one system call at a time, readers taking and releasing snapshots, compactions with any names (re-created setsums included), manifest roll-overs, the process dying between any two steps and reopening, and the verifier stepping, dying and restarting anywhere: every sst named by the committed manifest, the current version or a held snapshot is in sst/ (C08_needed_not_removed); reference counts are exact and a counted sst is in place; a log is in the trash only if it is empty or its sst was committed; the orphan scan never names a listed sst whatever fragments the verifier has removed, and open() finds every listed sst; the verifier unlinks only trash entries that the fragment named in its own manifest recorded, and no verifier activity touches sst/, the root's logs, the live manifest or the highest fragment. release_sst is also modelled at the grain of dec_and's decision and its callback (Refs/ModelLock.v: IDecToZero / IRenameToTrash with any thread in between): with the table lock held across the callback every such run ends in a state of the atomic model (C08_release_callback_under_table_lock_refines_atomic_release), so nothing needed is removed; with the callback run after the lock is given up the property is refuted (C08_needed_not_removed_refuted_without_lock_across_callback). By incarnation the verifier property is refuted (known class K-verifier-by-name) and proved outside the class. The model is tied to the code by lock-step replay of real single-stepped histories on the extracted model, comparing directory contents, reference counts, manifest state, fragments and the verifier's manifest after every step; verifier passes are killed before each unlink (strace), a reader's release is placed inside a compaction (hook), a compaction's pin of a re-created sst is placed inside the release callback of the same sst (sst point hook; the pin must wait for the rename, as ModelLock.fstep says), store processes are killed inside their renames, physical entries are compared across reopens.",
     "note": "Trusted: Coq kernel; extraction (ExtrOcamlBasic) + ocaml/refs driver; harness `c08` + lsmtk hooks (cfg blue_verif: single-step, dump, verif_refs, verif_snapshot, verif_set_point_hook, verif_set_sst_point_hook, verif_compaction_select/perform); strace kill injection; checks/c08_run.py. Atomic in the model: Manifest::apply (C13), the critical section under the compaction mutex, inc_and, dec_and when its decrement is not the last (the last one is split in ModelLock.v), the read-only part of process_one, and VersionRef::drop's `Arc::strong_count == 1` test together with the drop of the Arc. The last hides a leak (seen by build-C04 and the auditor; not a removal, so not a C08 violation): explicit_unref returns early when strong_count != 1 and nobody retries, so two holders of the same old version (with >= 2 compaction threads, or a compaction and a reader) letting go at the same time can both return early; the version's ssts then stay in sst/ with their counts until the next open's cleanup_orphans, and a verifier pass before that open backs off on them. Names and roll-overs are oracle inputs; sizes/contents are C01/C10's subject. Fixed in /repo for this property: a899047 (F5), 88180bd (pin compaction outputs), and by build-C04 bc4e529 (F17), 48c731b (F18). Known class K-verifier-by-name: trash entries are addressed by name, so an intent recorded before the store re-creates and re-removes the same setsum unlinks the later incarnation.",
 }
 
@@ -221,7 +222,8 @@ def _job(args):
 def build(chk=None):
     okx, outx = vlib.coq_make(["theories/Refs/Extract.vo"])
     okm, outm, mx = vlib.ocaml_build("refs", "mx_refs")
-    okh, outh, (c08_exe,) = vlib.cargo_build(["c08"])
+    okh, outh, (c08_exe, lsmtree_exe) = vlib.cargo_build(["c08", "lsmtree"])
+    build.lsmtree_exe = lsmtree_exe
     if not (okx and okm):
         raise RuntimeError("model build failed:\n" + outx[-1500:] + outm[-1500:])
     if not okh:
@@ -254,6 +256,9 @@ def run(chk):
     jobs = [(c08_exe, mx, optname, ops, "c08_%s_%d" % (name, chk.seed), universe) for name, optname, ops, universe in cases]
     with multiprocessing.Pool(min(len(jobs), max(2, vlib.NCPU - 2))) as pool:
         results = pool.map(_job, jobs, chunksize=1)
+        # stage ingest-fault: EIO at every system call of LsmTree::ingest on a bare tree (checks/c08_fault.py)
+        f_cov, f_prop, f_corr, f_mach = c08_fault.run_stage(chk, vlib.Rng(chk.seed * 7919 + 808), build.lsmtree_exe,
+                                                            lambda f, a: pool.map(f, a, chunksize=1))
 
     known = {k[1]: k[2] for k in vlib.known_findings("C08") if k[0] == "known"}
     totals = {}
@@ -317,9 +322,18 @@ def run(chk):
     chk.assumptions = [
         "direct oracle for the verifier by incarnation: an sst it unlinks must not be added again by an edit it has not verified (later fragment on disk or the live MANIFEST), except inside the known class K-verifier-by-name (re-created while the recorded intent named it)",
         "the setsum of a memtable's sst is fresh: no compaction in flight produces it (an acceptance condition of the model's EFlush / ECompact events)",
-        "Manifest::apply is atomic and durable (property C13); I/O faults other than process death are outside the model",
+        "in the main model Manifest::apply is atomic and durable (property C13) and process death is the only fault; I/O errors are modelled on the ingest path only (Refs/IngestFault.v: one fallible system call at a time), not on flush, compaction or the verifier",
         "file contents and the selector are outside this model (C01, C05, C10, C20); names are what matters here",
     ]
+    chk.coverage["ingest_fault_stage"] = f_cov
+    chk.coverage["rule"] += "; stage ingest-fault: bare LsmTree sessions (0..9 earlier ssts, 0..3 ingests earlier in the session so that the manifest rolls over inside the target ingest, a stray MANIFEST.tmp, duplicates), the target ingest recorded with strace and re-run with EIO injected at each of its system calls in turn, then a follow-up ingest in the same process and a fresh process"
+    chk.coverage["evaluations"] += f_cov["faulted_ingests"]
+    chk.coverage["disagreements_impl_vs_model"] += len(f_corr)
+    chk.coverage["disagreements_impl_vs_property"] += len(f_prop)
+    chk.coverage["machinery_errors"] += len(f_mach)
+    prop_bad += [dict(b, ops=[]) for b in f_prop]
+    corr_bad += f_corr
+    mach_bad += f_mach
     if prop_bad:
         for b in prop_bad[:3]:
             chk.violation("c08_%s.json" % b["name"], dict(b, kind="property"))
@@ -331,6 +345,8 @@ def run(chk):
 def replay(path):
     obj = json.load(open(path))
     print(json.dumps({k: obj[k] for k in obj if k not in ("ops",)}, indent=1)[:4000])
+    if obj.get("stage") == "ingest-fault":
+        return replay_fault(obj)
     cases = [obj] if "ops" in obj else (obj.get("correspondence", []) + obj.get("machinery", []))
     if not cases:
         return 1
@@ -343,3 +359,22 @@ def replay(path):
         if r.problems:
             rc = 1
     return rc
+
+
+def replay_fault(obj):
+    """a replay of the ingest-fault stage: re-run its case"""
+    _, _ = build()
+    import multiprocessing as mp
+    class _C:
+        tier, work, seed = "quick", os.path.join(vlib.VERIF, "work", "C08_replay"), 1
+    case = obj["case"]
+    for k in ("setup", "pre"):
+        case[k] = [[(bytes.fromhex(a), b, None if c is None else bytes.fromhex(c)) for a, b, c in e] for e in case[k]]
+    for k in ("target", "follow"):
+        case[k] = [(bytes.fromhex(a), b, None if c is None else bytes.fromhex(c)) for a, b, c in case[k]]
+    r = c08_fault.run_case((build.lsmtree_exe, os.path.join(_C.work, "ingest_fault"), case))
+    model, _ = c08_fault.model_eval(_C, r["model_cases"])
+    corr = c08_fault.compare(r, model or {})
+    print("problems now:", json.dumps(r["problems"][:10], indent=1)[:4000])
+    print("correspondence now:", json.dumps(corr[:10], indent=1)[:4000])
+    return 1 if (r["problems"] or corr) else 0
